@@ -266,3 +266,54 @@ Proof. eexists. repeat split; vm_compute; reflexivity. Qed.
 Example C18_ex_common : exists c,
   common_merge ex_c1 ex_c2 = Ok c /\ c = mkC 1500000000 1501000000 17 11 (Some []).
 Proof. eexists. split; vm_compute; reflexivity. Qed.
+
+(* ==== strengthening round: large results and large identity graphs ==== *)
+From Herc Require Import Combine.FastOracles Combine.IdentityBridge
+     Plumbing.IdStr Plumbing.IdentityMerge Plumbing.IdentityMergeProofs.
+
+(* The oracles the replay driver runs on LARGE cases (10^3 .. 10^4 files, developers, ticks) are different, faster
+   functions (coq/theories/Combine/FastOracles.v: both sides flattened to keyed sums in canonical form, index maps
+   tabulated once); whatever they accept, the oracles of Spec.v accept. *)
+Theorem C18_couples_fast_oracle_sound : forall people merged r1 r2 out,
+  cp_sum_fast_b people merged r1 r2 out = true -> cp_sum_b people merged r1 r2 out = true.
+Proof. exact cp_sum_fast_sound. Qed.
+Print Assumptions C18_couples_fast_oracle_sound.
+
+Theorem C18_devs_fast_oracle_sound : forall people merged r1 r2 o1 o2 out,
+  dv_conserve_fast_b people merged r1 r2 o1 o2 out = true -> dv_conserve_b people merged r1 r2 o1 o2 out = true.
+Proof. exact dv_conserve_fast_sound. Qed.
+Print Assumptions C18_devs_fast_oracle_sound.
+
+(* "Re-indexes by merged developer IDENTITY": when the identity table of a MergeResults call passes the executable
+   statements of C16 (mtotal_okb, mcomponents_okb: coq/theories/Plumbing/IdentityMerge.v), which the replay driver
+   of C18 evaluates on the table of the real calls, two input identities are sent to the same merged developer - in
+   the sense in which every model and specification function of C18 reads the table, Final (lookup0 people s) -
+   exactly when they are connected by shared names / e-mails (reflexive-transitive closure of "share a part"),
+   and every merged index lies inside the merged list. *)
+Theorem C18_identity_classes : forall people rd1 rd2 merged,
+  mtotal_okb rd1 rd2 (table_c16 people) merged = true ->
+  mcomponents_okb rd1 rd2 (table_c16 people) = true ->
+  forall s t, In s (rd1 ++ rd2) -> In t (rd1 ++ rd2) ->
+  (Final (lookup0 people s) = Final (lookup0 people t) <-> connected (rd1 ++ rd2) s t).
+Proof. exact table_classes. Qed.
+Print Assumptions C18_identity_classes.
+
+Theorem C18_identity_finals_in_range : forall people rd1 rd2 merged,
+  mtotal_okb rd1 rd2 (table_c16 people) merged = true ->
+  forall s, In s (rd1 ++ rd2) -> 0 <= Final (lookup0 people s) < lenZ merged.
+Proof. exact table_finals_in_range. Qed.
+Print Assumptions C18_identity_finals_in_range.
+
+(* non-vacuity: the fast oracles accept the outputs of the model on the examples above, and C16's statements hold of
+   the example table *)
+Example C18_ex_fast_oracles :
+  (exists m, couples_merge ex_people ex_merged ex_cp1 ex_cp2 = Ok m /\
+             cp_sum_fast_b ex_people ex_merged ex_cp1 ex_cp2 m = true) /\
+  (exists m, devs_merge ex_people ex_merged ex_dv1 ex_dv2 ex_c1 ex_c2 = Ok m /\
+             dv_conserve_fast_b ex_people ex_merged ex_dv1 ex_dv2 0 3 m = true) /\
+  mtotal_okb (cr_people ex_cp1) (cr_people ex_cp2) (table_c16 ex_people) ex_merged = true /\
+  mcomponents_okb (cr_people ex_cp1) (cr_people ex_cp2) (table_c16 ex_people) = true.
+Proof.
+  split; [eexists; split; vm_compute; reflexivity|]. split; [eexists; split; vm_compute; reflexivity|].
+  split; vm_compute; reflexivity.
+Qed.
